@@ -19,7 +19,8 @@ hvars == <<vars, hist, cur, npre>>
 Proj == [mode |-> mode, flag |-> flag, lock |-> lock, futures |-> futures, spc |-> spc, wpc |-> wpc,
          proc |-> proc, exc |-> exc, delivered |-> delivered, seen |-> seen, hpc |-> hpc,
          snap |-> snap, hidx |-> hidx,
-         cw |-> [j \in Jobs |-> cpc[<<"w", j>>]], ch |-> [j \in Jobs |-> cpc[<<"h", j>>]],
+         cw |-> [j \in Jobs |-> cpc[<<"w", j>>]],
+         ch |-> [s \in Shuts |-> [j \in Jobs |-> cpc[<<s, j>>]]],
          late |-> late, postret |-> postret, early |-> early, sclosed |-> sclosed]
 
 NoThread == <<"-", "-">>
@@ -28,11 +29,11 @@ ThreadOf(a) == <<a.k, a.j>>
 ThreadEnabled(t) ==
     CASE t[1] = "sub" -> ENABLED SubNext(t[2])
       [] t[1] = "wrk" -> ENABLED WrkNext(t[2])
-      [] t[1] = "can" -> ENABLED CanNext(t[2])
-      [] t[1] = "shut" -> ENABLED ShutNext
+      [] t[1] = "can" -> ENABLED CanNext(t[2][1], t[2][2])
+      [] t[1] = "shut" -> ENABLED ShutNext(t[2])
       [] OTHER -> FALSE
 
-AllThreads == ({"sub", "wrk", "can"} \X Jobs) \cup {<<"shut", "-">>}
+AllThreads == ({"sub", "wrk"} \X Jobs) \cup ({"can"} \X (Shuts \X Jobs)) \cup ({"shut"} \X Shuts)
 EnabledThreads == {t \in AllThreads : ThreadEnabled(t)}
 
 InitH == Init /\ hist = <<>> /\ cur = NoThread /\ npre = 0
